@@ -16,7 +16,7 @@ def _explore_task(task):
 
 
 def run_histories(res, prop, tier):
-    H = DEPTH[tier]
+    H = common.bound("HIST_DEPTH", DEPTH[tier])
     objs = Hh.spec_objects(tier)
     res.bounds["history_depth"] = H
     res.bounds["objects"] = len(objs)
@@ -77,9 +77,9 @@ def check_c09(prop, tier):
     from . import props_stream
     res = common.Result(prop, tier)
     # ---- stream part: box with 1..K passes, flags after every action
-    N = props_stream.BOUNDS[tier]
+    N, deep, _large = props_stream.box_bounds(tier)
     cfgs = props_stream.full_box(tier)
-    res.bounds.update({"N_max": N, "N_deep_layer": props_stream.DEEP[tier],
+    res.bounds.update({"N_max": N, "N_deep_layer": deep,
                        "configs": len(cfgs),
                        "passes_max": 3 if tier == "quick" else 5})
     out = props_stream.merge_orders(
